@@ -56,6 +56,10 @@ theorem finish_okOrErr (kind : List Char) (d : List (List Char × Val)) : OkOrEr
     · rw [if_neg h2]
       repeat' split
       all_goals first | exact OkOrErr.ok _ | exact OkOrErr.err
+theorem earlyReturn_okOrErr (ms : Members) (v : Val) : OkOrErr (earlyReturn ms v) := by
+  cases ms
+  · exact OkOrErr.ok _
+  · exact OkOrErr.err
 mutual
 theorem fromJson_okOrErr : (j : Json) → OkOrErr (fromJson j)
   | .null => by simp [fromJson, OkOrErr]
@@ -87,7 +91,7 @@ theorem visitMap_okOrErr : (ms : Members) → ∀ kind d, OkOrErr (visitMap ms k
       split
       · split
         · repeat' split
-          all_goals first | exact OkOrErr.ok _ | exact OkOrErr.err | exact visitMap_okOrErr ms _ _
+          all_goals first | exact OkOrErr.ok _ | exact OkOrErr.err | exact earlyReturn_okOrErr _ _ | exact visitMap_okOrErr ms _ _
         · exact OkOrErr.err
       · exact visitMap_okOrErr ms _ _
     · simp [h, OkOrErr]
